@@ -17,6 +17,18 @@ def crash_sweep(release):
     return rows
 
 
+def grammar_probes():
+    """Inputs read off the translated grammar (coq/Synth.v, extracted): for every parser function that can call itself, a
+    prefix that reaches it followed by n repetitions of the bytes of one cycle."""
+    okd, outd = C.build_driver()
+    if not okd:
+        return None, outd[-1500:]
+    rc, out = C.run_driver(["probes", "40", "1500", "20000"], "")
+    if rc != 0:
+        return None, out[-1500:]
+    return sorted(set(l for l in out.split("\n") if l)), None
+
+
 def search(tier, seed):
     n = 2500 if tier == "quick" else 120000
     total = 0
@@ -55,6 +67,22 @@ def search(tier, seed):
                 return total, "parsing on a 2 MiB thread (%s build) ended with %s:\ninput (%d bytes) %s" % (
                     "release" if release else "debug", v, len(h) // 2, C.show_input(h, 160)), samples, len(seen)
         samples.append("nesting sweep (%s): %d inputs, e.g. %s -> %s" % ("release" if release else "debug", len(rows), C.show_input(rows[7][0], 60), rows[7][1]))
+    # the same on inputs read off the grammar as it is translated now (covers recursion through rules the harness's
+    # generators do not know)
+    probes, err = grammar_probes()
+    if probes:
+        for release in (False, True):
+            rc, out = C.run_harness(["crash"], inp="\n".join(probes) + "\n", release=release, timeout=1200)
+            rows = [l.split("\t") for l in out.split("\n") if l]
+            for h, v in rows:
+                total += 1
+                seen.add(h)
+                if v not in ("OK", "INC", "ERR"):
+                    return total, "parsing on a 2 MiB thread (%s build) ended with %s:\ninput (%d bytes, read off the grammar: a prefix reaching a self-calling rule, then its cycle repeated) %s" % (
+                        "release" if release else "debug", v, len(h) // 2, C.show_input(h, 160)), samples, len(seen)
+        samples.append("grammar probes: %d inputs (prefix reaching a self-calling rule ++ cycle^n, n = 40, 1500, 20000), e.g. %s" % (len(probes), C.show_input(probes[0], 60)))
+    else:
+        samples.append("grammar probes: not available (%s)" % (err or "no self-calling rule reachable")[:200])
     return total, None, samples, len(seen)
 
 
@@ -67,7 +95,7 @@ def run(tier, seed, t0):
             raise RuntimeError("harness build failed:\n" + outh[-3000:])
     total, bad, samples, distinct = search(tier, seed)
     if bad:
-        raise C.Violation(PROP, "the parser panics, aborts or exhausts the stack", bad + "\nreplay: harness parse <stream> %d | harness crash-gen 20000 | harness crash" % seed, True)
+        raise C.Violation(PROP, "the parser panics, aborts or exhausts the stack", bad + "\nreplay: harness parse <stream> %d | harness crash-gen 20000 | harness crash | ocaml/driver probes 40 1500 20000 | harness crash" % seed, True)
     if problems and okr:
         raise C.Violation(PROP, "translator could not translate part of the parser: " + problems, "search: %d inputs all got a verdict (incl. the nesting sweep on a 2 MiB thread, debug and release)" % total, False)
     if not proof["ok"]:
@@ -87,7 +115,7 @@ def run(tier, seed, t0):
     C.write_evidence(PROP, tier, seed, t0, obligations=proof["obligations"] + 1, discharged=proof["discharged"] + 1,
                      checker_cmd="tools/rs2coq /repo coq/gen && make -C coq Properties/C01.vo (coqc 8.16.1) + harness parse <6 streams> + harness crash (2 MiB thread, child process, debug+release) vs ocaml/driver parse",
                      evaluations=total + evals, distinct_nontrivial=distinct,
-                     rule="search oracle (implementation only): every input of the streams valid / mutate (token-dictionary and byte mutations, splices, truncations, boundary numerals) / garbage / follow / stability / numeric must yield OK, INC or ERR (panics caught by catch_unwind); generated streams (with stray line ends, literal-final responses, malformed lines, truncations) through the real Framed<MockIo, ImapCodec> under whole / single-cut / pair / many-cut chunkings must not panic; the nesting sweep (depths 1..20000 at: nested multiparts, bare '(' runs, message/rfc822 chains, alternating multipart/message, body-extension lists, extension inside multiparts, and non-recursive list positions; BODYSTRUCTURE and BODY) is parsed on a 2 MiB thread in a child process in debug and release builds and the child must survive. distinct_nontrivial = distinct inputs with an accept/reject verdict.",
+                     rule="search oracle (implementation only): every input of the streams valid / mutate (token-dictionary and byte mutations, splices, truncations, boundary numerals) / garbage / follow / stability / numeric must yield OK, INC or ERR (panics caught by catch_unwind); generated streams (with stray line ends, literal-final responses, malformed lines, truncations) through the real Framed<MockIo, ImapCodec> under whole / single-cut / pair / many-cut chunkings must not panic; the nesting sweep (depths 1..20000 at: nested multiparts, bare '(' runs, message/rfc822 chains, alternating multipart/message, body-extension lists, extension inside multiparts, and non-recursive list positions; BODYSTRUCTURE and BODY; plus the probes read off the translated grammar by coq/Synth.v: for every parser function that can call itself, a prefix reaching it followed by 40 / 1500 / 20000 repetitions of the bytes of one cycle) is parsed on a 2 MiB thread in a child process in debug and release builds and the child must survive. distinct_nontrivial = distinct inputs with an accept/reject verdict.",
                      samples=samples,
                      extra=dict(theorems=proof["names"], correspondence_cases=evals),
                      assumptions=["partial: the theorem bounds the NUMBER of nested parser calls for all inputs (rank of parse_response, about 210); that this many Rust frames fit a 2 MiB stack is measured by the nesting sweep, not proved",
